@@ -49,6 +49,8 @@ OWNERS = [
     (r'dasp_signal::', 'C04'),
 ]
 OWNERS = [(re.compile(p), o) for p, o in OWNERS]
+# properties whose own rules decide, for every input, which run-time checks can fire (exact abstract interpretation)
+PANIC_AWARE = ('C01', 'C02', 'C06', 'C10', 'C15')
 NOSTD_CODE = ('C11', 'C17', 'C18', 'C19', 'C20')      # dasp_sample::ops, dasp_signal::ops, sinc::ops, detect::ops, hann::ops
 IMPLICIT_TRAITS = ('core::ops::drop::Drop', 'core::ops::deref::Deref', 'core::ops::deref::DerefMut')
 NOT_SPECIFIC = re.compile(r'^(heap\.|dep\.|rms\.precision$|coverage\.)|inventory')
@@ -70,6 +72,34 @@ def library_bodies(facts):
         if imp.get('trait') in DERIVE_TRAITS and (imp['trait'], imp['self_ty']) in derived and imp['trait'] not in ('core::clone::Clone', 'core::default::Default'):
             continue        # (derived Clone / Default stay in: they create the state the properties talk about, and may be replaced by hand-written impls)
         yield p, b
+
+
+def panic_signatures(summary):
+    """the implicit arithmetic checks a function can fail: kind of check with the integer types its condition mentions"""
+    import json as _json
+    out = set()
+
+    def types(t, acc):
+        if isinstance(t, list):
+            if len(t) == 3 and t[0] in ('int', 'float') and isinstance(t[2], (str, int)):
+                acc.add(str(t[2]))
+            if len(t) == 4 and t[0] == 'cast' and isinstance(t[3], str):
+                acc.add(t[3])
+            for x in t:
+                types(x, acc)
+    def visit(paths):
+        for p in paths or []:
+            for e in p.get('events', []):
+                # the checks the COMPILER inserts (overflow, division by zero): invisible in the source, and exactly what a
+                # narrower integer type changes.  Explicit assert! / expect / bounds checks are deliberate and visible.
+                if e and e[0] == 'assert' and str(e[3]).startswith(('Overflow', 'DivisionByZero', 'RemainderByZero')):
+                    acc = set()
+                    types(e[1], acc)
+                    out.add('%s[%s]' % (e[3], ','.join(sorted(acc))))
+    visit(summary.get('paths'))
+    for c in summary.get('closures') or []:
+        visit(c)
+    return out
 
 
 def check_uncovered(run, prop, loader, configs=('std-debug',)):
@@ -106,6 +136,26 @@ def check_uncovered(run, prop, loader, configs=('std-debug',)):
                 run.unproven('coverage.reference', p, cfg, 'no rule of this check describes this function, and its behaviour is not provably that of the reference '
                              'implementation any more (%s)' % why, where=(b.get('span') or '').split(':')[0] + ':' + str((b.get('span') or ':0').split(':')[1]) if b.get('span') else None)
         run.analysed['coverage.reference:%s' % cfg] = n
+        # panic surface of the functions the rules DO examine: most rules read the returning paths; a run-time check that did
+        # not exist on the reference tree (an overflow check on a narrower type, a new bounds check, a new unwrap) is a new
+        # way for the call not to return at all.  If the function acquired one, it must be provably equivalent to the reference.
+        np_ = 0
+        for p in sorted(evaluated if prop not in PANIC_AWARE else ()):
+            b = facts.body(p)
+            if b is None or b.get('crate') not in CRATES or owner_of(p) != prop:
+                continue
+            r = ref.get(p)
+            if r is None:
+                continue
+            cur = equiv.summarize(facts, p)
+            if cur is None:
+                continue
+            np_ += 1
+            new_sigs = panic_signatures(cur) - panic_signatures(r)
+            if new_sigs and not equiv.equivalent(r, cur, trust_callees=True)[0]:
+                run.unproven('coverage.panic-surface', p, cfg, 'can fail a run-time check that the reference implementation does not have (%s), and is not provably equivalent to it: '
+                             'a call that used to return may now panic' % '; '.join(sorted(new_sigs))[:300], where=b.get('span'))
+        run.analysed['coverage.panic-surface:%s' % cfg] = np_
         # a NEW impl of a trait that acts implicitly, on a type that already existed: `Drop` runs at every scope end, `Deref`
         # reroutes method calls -- behaviour of existing code changes although no existing function did
         meta = ref.get('#meta') or {}
